@@ -229,6 +229,7 @@ fn metric_of(n: i128) -> Option<LoadMetric> {
     match n {
         0 => Some(LoadMetric::Connections),
         1 => Some(LoadMetric::Requests),
+        2 => Some(LoadMetric::ConnectionTime),
         _ => None,
     }
 }
@@ -334,6 +335,9 @@ fn run(case: &Case, out: &mut Out) {
                     m.rebuild(&l.backends);
                     l.load_balancing = Box::new(m);
                 }
+                // the peak-EWMA connection time is wall-clock data: with that metric the pick of
+                // LeastLoaded / PowerOfTwo is only checked for membership, like Random's
+                let kind = if a[2].n() == 2 && (kind == Kind::Least || kind == Kind::P2c) { Kind::Random } else { kind };
                 st.kind[c as usize] = kind;
                 out.obs(&st.view(c));
             }
